@@ -114,12 +114,20 @@ def gen_op(rng, ids, files, known=None):
         return kind, ["mv", oid, ("SRC", rng.choice(files + ["missing-src"])), "--", rng.choice(["/", "moved/", "m.txt"])]
     # several sources into one file name: which source wins depends on hash-map order inside the
     # library itself (flagged as non-deterministic by the C09 model) - not a CLI matter, not generated
+    def no_clash(srcs):
+        """sources matched by a glob (or directories) whose files share a base name would land on one target: which one
+        wins depends on hash order inside the library; such sources are replaced by one literal path"""
+        if any(c in x for x in srcs for c in "*?") or len(srcs) > 1:
+            names = [h.rsplit("/", 1)[-1] for h in have]
+            if len(names) != len(set(names)) or len(srcs) > 1 and len({x.rsplit("/", 1)[-1] for x in srcs}) < len(srcs):
+                return [rng.choice(have)] if have else ["a.txt"]
+        return srcs
     if kind == "cpi":
-        srcs = [lp() for _ in range(rng.choice([1, 1, 2]))]
+        srcs = no_clash([lp() for _ in range(rng.choice([1, 1, 2]))])
         return kind, ["cp", "-i"] + (["-r"] if rng.random() < 0.5 else []) + (["-v", rng.choice(["v1", "v2"])] if rng.random() < 0.3 else []) + \
             [oid] + srcs + ["--", rng.choice(["/", "copy.txt", "d3/", "dir"] if len(srcs) == 1 and not any(c in srcs[0] for c in "*?") else ["/", "d3/"])]
     if kind == "mvi":
-        srcs = [lp() for _ in range(rng.choice([1, 2]))]
+        srcs = no_clash([lp() for _ in range(rng.choice([1, 2]))])
         return kind, ["mv", "-i", oid] + srcs + ["--", rng.choice(["/", "ren.txt", "d4/"] if len(srcs) == 1 and not any(c in srcs[0] for c in "*?") else ["/", "d4/"])]
     if kind == "rm":
         return kind, ["rm"] + (["-r"] if rng.random() < 0.5 else []) + [oid] + [lp() for _ in range(rng.choice([1, 2]))]
